@@ -157,13 +157,25 @@ def creation_worker(job):
             dt = rng.choice([None, None, "int64", "float64", "int32", "float32", "int8"])
             if not ints and dt is not None and "int" in dt:
                 dt = "float64"      # float bounds with an integer dtype: the order of rounding is not specified
-            rec["params"] = {"start": start, "stop": stop, "step": step, "dtype": dt}
+            # the same numbers spelled as NumPy scalars / 0-d arrays / ndonnx arrays of the default dtypes: the result
+            # (dtype included) must not depend on the spelling
+            def spell(v):
+                if v is None:
+                    return v, "py"
+                how = rng.choice(["py", "py", "np-scalar", "np-0d", "ndx"])
+                t = np.int64 if isinstance(v, int) else np.float64
+                return {"py": v, "np-scalar": t(v), "np-0d": np.array(v, dtype=t), "ndx": ndx.asarray(np.array(v, dtype=t))}[how], how
+            pstart, pstop, pstep = start, stop, step
+            (start, h1), (stop, h2), (step, h3) = spell(start), spell(stop), (spell(step) if step != 1 else (step, "py"))
+            rec["params"] = {"start": pstart, "stop": pstop, "step": pstep, "dtype": dt, "spelling": [h1, h2, h3]}
             kw = {} if dt is None else {"dtype": impl.dt(dt)}
             if stop is None:
-                got = ndx.arange(start, step=step, **kw).to_numpy() if step != 1 else ndx.arange(start, **kw).to_numpy()
+                got = ndx.arange(start, step=step, **kw).to_numpy() if pstep != 1 else ndx.arange(start, **kw).to_numpy()
+                start, stop, step = pstart, pstop, pstep
                 ref = np.arange(start, step=step, dtype=dt) if step != 1 else np.arange(start, dtype=dt)
             else:
                 got = ndx.arange(start, stop, step, **kw).to_numpy()
+                start, stop, step = pstart, pstop, pstep
                 ref = np.arange(start, stop, step, dtype=dt)
             check_result(rec, got, ref, ulps=2)
         elif fn == "linspace":
@@ -172,7 +184,11 @@ def creation_worker(job):
             dt = rng.choice([None, "float64", "float32"])
             rec["params"] = {"start": start, "stop": stop, "num": num, "endpoint": endpoint, "dtype": dt}
             kw = {} if dt is None else {"dtype": impl.dt(dt)}
-            got = ndx.linspace(start, stop, num, endpoint=endpoint, **kw).to_numpy()
+            def spell_f(v):
+                how = rng.choice(["py", "py", "np-scalar", "np-0d", "ndx"])
+                t = np.int64 if isinstance(v, int) else np.float64
+                return {"py": v, "np-scalar": t(v), "np-0d": np.array(v, dtype=t), "ndx": ndx.asarray(np.array(v, dtype=t))}[how]
+            got = ndx.linspace(spell_f(start), spell_f(stop), num, endpoint=endpoint, **kw).to_numpy()
             check_result(rec, got, np.linspace(start, stop, num, endpoint=endpoint, dtype=dt or "float64"), ulps=4)
     except Exception as e:
         rec["fail"].append(("raises", f"{type(e).__name__}: {str(e)[:200]}"))
@@ -226,7 +242,7 @@ def run(ctx: common.Ctx):
                           f"asarray round trip {r['dtype']}{r['shape']} mask={r['mask']} form={r['form']}: {kind}: {detail}",
                           {**{k: r[k] for k in ("dtype", "shape", "mask", "form")}, "kind": kind, "detail": detail})
     fns = ["zeros", "ones", "empty", "full", "zeros_like", "ones_like", "empty_like", "full_like", "eye", "arange", "linspace"]
-    cjobs = [(fn, ctx.seed * 131 + k) for fn in fns for k in range(25 if quick else 400)]
+    cjobs = [(fn, ctx.seed * 131 + k) for fn in fns for k in range(60 if quick else 600)]
     cres = tables.pmap(creation_worker, cjobs, chunk=8)
     for job, r in tables.pairs(ctx, cjobs, cres):
         if isinstance(r, tables.Crashed):
